@@ -66,7 +66,7 @@ def vector_truediv(I, self, other):
 FAILED = {}  # obligation name -> number of failing instances seen in this process
 
 
-def limited(eng, name, goal, limit=2):
+def limited(eng, name, goal, limit=1):
     """eng.check, except that an obligation already refuted on `limit` earlier paths is not refuted over and over again
     (each refutation costs the full solver budget; the verdict of the obligation is already 'failed')."""
     if FAILED.get(name, 0) >= limit:
@@ -324,8 +324,7 @@ def register_point_branch(reg):
                     # R (w / n) = (R w) / n : instance of linearity of the rotation
                     G.instance(eng, "L-rot.homogeneous_division", rot(o), n, w[0], w[1], w[2])
                 G.use(eng, "quotient")
-                for i, nm in enumerate("xyz"):
-                    chk(f"occlusion_ray_points_from_the_camera_at_the_target_{nm}", dvec[i] * n == parts["d"][i])
+                chk("occlusion_ray_points_from_the_camera_at_the_target", z3.And(*[dvec[i] * n == parts["d"][i] for i in range(3)]))
 
     reg.add(
         C.Contract(f"{VIS}:canSee", params={}, setup=setup_c, post=post_c, inline_all=True, replay=replay_occlusion_ray, properties=("C17",)),
